@@ -253,7 +253,22 @@ def gen_op(w, rng, allow_fresh):
         choices += ["dnew"] * 2
     if w.purged:
         choices += ["readd"] * 2
+    forced = getattr(w, "_force_add_at", None)
+    if forced is not None:
+        # right after a move that ended where it started: the cell is still occupied, Core.add there must be refused
+        w._force_add_at = None
+        return ("add", fresh_assembly(w, rng), forced)
     kind = rng.choice(choices)
+    if not w.flags and kind == "swap" and rng.random() < 0.15:
+        a = rng.choice(kids)            # swapAssemblies(a, a): a move that ends where it started
+        w._force_add_at = cell_of(a)
+        return ("swap", a, a)
+    if not w.flags and kind == "cascade" and rng.random() < 0.3:
+        lst = rng.sample(kids, rng.randint(2, 4))     # a cascade naming its first assembly again (the code only warns)
+        lst.insert(rng.randint(1, len(lst)), lst[0])
+        if rng.random() < 0.5:
+            w._force_add_at = cell_of(lst[0])
+        return ("cascade", lst)
     if kind == "readd":
         # Core.add(A) WITHOUT locator for an assembly purged earlier: its detached locator still names its old cell;
         # refused when that cell was refilled meanwhile (fix: detached locator mapped to the core's own cell first)
@@ -544,6 +559,20 @@ def excluded_points(ctx):
         contents_ok(w, fails, case, "end of stream", list(w.core) + list(w.sfp))
         ctx.distinct.add(("excluded-stream", track, stat))
         ctx.count("excluded: fresh discharge with stationary blocks (track=%s, %s)" % (track, stat))
+    # swapAssemblies(a, a) WITH stationary blocks: outside the model's domain (Pre), judged by the oracle alone
+    w = World(True, "gridplate")
+    case = {"stream": "swapAssemblies(a, a) with stationary blocks"}
+    a = list(w.core)[5]
+    nblocks = len(a)
+    exc = apply_op(w, ("swap", a, a))
+    n0 = len(fails)
+    oracle(w, fails, case, "swapAssemblies(a, a)")
+    contents_ok(w, fails, case, "swapAssemblies(a, a)", [a])
+    if len(a) != nblocks:
+        del fails[n0:]
+        fails.append(Failure("self-swap-loses-stationary-block", "moves never alter an assembly's contents", case,
+                             observed={"blocks before": nblocks, "after": len(a), "exception": repr(exc)[:80]}))
+    ctx.count("excluded: self-swap with stationary blocks")
     # F11a: add at an occupied location
     w = World(True, "none")
     case = {"stream": "Core.add at an occupied location"}
